@@ -281,6 +281,18 @@ def items(tier, seed):
     yield from spaces.mk(['nest22'], k=2, **rich)
     yield from spaces.mk(['nest23'] + (['nest33'] if th else []),
                          k=2 if th else 1, **rich)
+    # a contained (non-critical) raise and a critical raise inside the
+    # nested scheduler, every critical combination along the chain
+    yield from spaces.mk(
+        ['nest22'] + (['nest23'] if th else []), force='product',
+        fargs={'parts': [
+            ('outcomes', {'where': 'n'}),
+            ('mods', {'alts': [[], [('n', 'critical', True)]]}),
+            ('mods', {'alts': [[], [('top', 'k', 'nest')],
+                               [('top', 'k', 'nest'),
+                                ('top', 'critical', True)]]})]},
+        job_open={'dur': [0, 2]}, top_open={}, nest_open={'timeout': [1, 2]},
+        k=2 if th else 1, bound=2, kind='mon')
     yield from spaces.mk(['deep3'], force='each_job', fargs=crit,
                          job_open={'dur': [0, 2]},
                          top_open={'k': ['nest'], 'critical': [True]},
